@@ -304,6 +304,32 @@ def replay_gen(kind, hint_src, conf_src, obj_src, r, extra=None):
                 real_verdict(spy, hint, conf, r)
                 if log: return True, f'the check called __bool__ of the checked {base.__name__} subclass instance {len(log)} time(s): user-visible code outside the read-only protocol list'
                 break
+        # ... or __bool__ of one of its ITEMS (each item replaced by an equal instance of a recording subclass of its own class)
+        cands = [obj] if type(obj) in (list, tuple) and obj else []
+        if not cands:
+            # guided: the concretised model is not a plain list / tuple - try small lists of conforming items for a ROOT hint with one item hint
+            import typing
+            args = typing.get_args(hint)
+            if len(args) == 1 or (len(args) == 2 and args[1] is Ellipsis):
+                for fsrc in REACH_POOL:
+                    try: f_ = eval(fsrc, NS)
+                    except Exception: continue
+                    if orc.conforms(f_, args[0]):
+                        for mk_ in (list, tuple):
+                            c_ = mk_([f_, eval(fsrc, NS)])
+                            if isinstance(c_, typing.get_origin(hint) or object): cands.append(c_)
+        for obj in cands[:6]:
+            log = []
+            def spy(i):
+                try:
+                    Rec = type('Recording' + type(i).__name__, (type(i),), {'__bool__': lambda self: (log.append('__bool__'), True)[1]})
+                    if isinstance(i, (int, float, str, bytes, tuple, frozenset)): return Rec(i)
+                    j = object.__new__(Rec); j.__dict__.update(getattr(i, '__dict__', {})); return j
+                except Exception: return i
+            spied = type(obj)(spy(i) for i in obj)
+            for draw in sorted({r, 0, 1, 2}):
+                real_verdict(spied, hint, conf, draw)
+                if log: return True, f'the check called __bool__ of an ITEM of the checked {type(obj).__name__} ({len(log)} time(s), draw {draw}): user-visible code outside the read-only protocol list'
         return False, 'unchanged'
     raise NotImplementedError(kind)
 
